@@ -365,6 +365,13 @@ impl GlobalScheduler {
         action: Action,
         origin_id: usize,
     ) -> Result<(), SchedulingError> {
+        // A periodic action with a null period would be re-scheduled forever
+        // at the same time stamp.
+        if let Some((_, period)) = action.next() {
+            if period.is_zero() {
+                return Err(SchedulingError::NullRepetitionPeriod);
+            }
+        }
         // The scheduler queue must always be locked when reading the time,
         // otherwise the following race could occur:
         // 1) this method reads the time and concludes that it is not too late
